@@ -37,15 +37,17 @@ type RtspClient struct {
 	NoTeardown   bool
 	DescribeOnly bool
 
-	Ready      bool // RECORD / PLAY acknowledged
-	ReadyStep  int
-	Failed     string // non-empty: the exchange ended abnormally (status, parse error)
-	Closed     bool
-	ClosedStep int
-	Status     []int // status code of every response, in order
-	Challenge  string
-	SdpRecv    string
-	DescribeOK bool
+	AnnounceOK   bool // publisher: ANNOUNCE acknowledged (lal admits the input at this point)
+	AnnounceStep int
+	Ready        bool // RECORD / PLAY acknowledged
+	ReadyStep    int
+	Failed       string // non-empty: the exchange ended abnormally (status, parse error)
+	Closed       bool
+	ClosedStep   int
+	Status       []int // status code of every response, in order
+	Challenge    string
+	SdpRecv      string
+	DescribeOK   bool
 
 	buf   []byte
 	cseq  int
@@ -261,6 +263,8 @@ func (a *RtspClient) onResponse(code int, hdr map[string]string, body string) {
 			a.Failed = fmt.Sprintf("ANNOUNCE -> %d", code)
 			return
 		}
+		a.AnnounceOK = true
+		a.AnnounceStep = a.K.Step()
 		a.stage = "setup"
 		a.setup = 0
 		a.sendSetup()
